@@ -114,7 +114,7 @@ func runBigCase(idx int, dir, tier string, seed int64) *caseResult {
 	caseID := fmt.Sprintf("big-%d(n=%d,first-flush-at=%d)", idx, n, first)
 	pdir := filepath.Join(dir, "p")
 	h := &histRunner{res: res, caseID: caseID, placement: "container-boundaries", dir: pdir, ds: ds, ev: newEvaluator(), rnd: r,
-		queries: queries, flagged: map[int]bool{}, skipHeavy: quick, threeContainers: n > 131072}
+		queries: queries, flagged: map[int]bool{}, skipHeavy: quick}
 	now := time.Now().UnixMilli()
 	h.t0 = now - now%3600_000 - 2*3600_000
 	h.ts = h.t0 + 600_000
